@@ -56,7 +56,10 @@ def history(rng, res, tier):
             a = rng.random()
             if a < 0.35 or ntab == 0:
                 name = "tb%d" % ntab
-                if not m.create(name, via_sql=rng.random() < 0.6, ncols=rng.randrange(1, 7), kinds_pool="ns"):
+                nc = rng.randrange(1, 7)
+                # names: mixed-case table names in SQL text (identifiers are case-insensitive), column names of 1..120 characters
+                cn = ["c%d" % i + ("_" + "n" * rng.choice([1, 20, 60, 120]) if rng.random() < 0.35 else "") for i in range(nc)]
+                if not m.create(name, via_sql=rng.random() < 0.6, ncols=nc, kinds_pool="ns", colnames=cn, sqlname=rng.choice([name, name.upper(), name.capitalize(), "tB%d" % ntab])):
                     break
                 ntab += 1
                 ops.append("C")
@@ -131,6 +134,41 @@ def run(res, replay=None):
             res.oracle_failures.append((d, "F-CAT-OID is back? " + w))
     finally:
         m.close()
+    # a columns catalog of several pages: many tables with long column names, restarts in between, then tables whose
+    # column rows have very different lengths (short rows fit into gaps of earlier catalog pages)
+    for rep in range(3 if res.tier == "quick" else 20):
+        r2 = random.Random(res.seed * 100 + rep)
+        m = Mirror(r2, mem_kb=1200)
+        try:
+            if m.open():
+                nt = 0
+                for phase in range(3):
+                    for _ in range(r2.choice([6, 10]) if phase == 0 else r2.randrange(3, 6)):
+                        name = "tb%d" % nt
+                        nc = r2.randrange(2, 9)
+                        lens = [r2.choice([1, 3, 80, 110, 150]) for _ in range(nc)] if phase else [r2.choice([90, 110, 130])] * nc
+                        if phase and r2.random() < 0.7:
+                            lens[0], lens[1] = r2.choice([1, 3, 10, 20]), r2.choice([110, 130, 150])
+                        cn = ["k%d%s" % (i, "w" * l) for i, l in enumerate(lens)]
+                        if not m.create(name, via_sql=True, ncols=nc, types=["i"] * (nc - 1) + ["s"], colnames=cn, sqlname=r2.choice([name, name.capitalize()])):
+                            break
+                        nt += 1
+                        for _ in range(r2.randrange(1, 4)):
+                            m.insert(name)
+                    if m.fails or not m.restart(clean=r2.random() < 0.5):
+                        break
+                    for name in m.tables:
+                        m.verify(name, nq=1, what="wide catalog, after restart %d" % (phase + 1))
+                    if m.fails:
+                        break
+                if m.db.dead and not m.fails:
+                    m.fail("wide catalog", "engine stopped answering: " + m.db.dead)
+            res.note_case("wide-catalog|%d" % rep, True)
+            for d, w in m.fails:
+                if len(res.oracle_failures) < 5:
+                    res.oracle_failures.append((d, w))
+        finally:
+            m.close()
     n = 30 if res.tier == "quick" else 300
     for i in range(n):
         for d, w in history(rng, res, res.tier):
